@@ -180,10 +180,54 @@ class _Canon(ast.NodeTransformer):
                 n.body, n.orelse = n.orelse, n.body
         return n
 
+    @staticmethod
+    def _reroll(first: ast.stmt, loop: ast.stmt):
+        """`x = []` directly followed by `for v in it: [if c: ...] x.append(e)`  ->  `x = [e for v in it if c]`, or None."""
+        if not (isinstance(first, ast.Assign) and len(first.targets) == 1 and isinstance(first.targets[0], ast.Name)
+                and isinstance(first.value, ast.List) and not first.value.elts):
+            return None
+        if not (isinstance(loop, ast.For) and not loop.orelse and len(loop.body) == 1):
+            return None
+        name = first.targets[0].id
+        ifs = []
+        st = loop.body[0]
+        while isinstance(st, ast.If) and not st.orelse and len(st.body) == 1:
+            ifs.append(st.test)
+            st = st.body[0]
+        if not (isinstance(st, ast.Expr) and isinstance(st.value, ast.Call) and isinstance(st.value.func, ast.Attribute) and st.value.func.attr == "append"
+                and isinstance(st.value.func.value, ast.Name) and st.value.func.value.id == name and len(st.value.args) == 1 and not st.value.keywords):
+            return None
+        elt = st.value.args[0]
+        used = {x.id for e in [elt, loop.iter] + ifs for x in ast.walk(e) if isinstance(x, ast.Name)}
+        if name in used or any(isinstance(x, (ast.Yield, ast.YieldFrom, ast.Await, ast.NamedExpr)) for e in [elt] + ifs for x in ast.walk(e)):
+            return None
+        comp = ast.ListComp(elt=elt, generators=[ast.comprehension(target=loop.target, iter=loop.iter, ifs=ifs, is_async=0)])
+        new = ast.Assign(targets=[ast.Name(id=name, ctx=ast.Store())], value=comp)
+        ast.copy_location(new, first)
+        ast.copy_location(comp, first)
+        new.end_lineno = getattr(loop, "end_lineno", first.lineno)
+        ast.fix_missing_locations(new)
+        return new
+
     def generic_visit(self, node):
         if isinstance(node, ast.If) and len(node.orelse) == 1 and isinstance(node.orelse[0], ast.If):
             node.orelse[0]._is_elif = True      # type: ignore[attr-defined]
         super().generic_visit(node)
+        for fld in ("body", "orelse", "finalbody"):
+            b = getattr(node, fld, None)
+            if isinstance(b, list) and len(b) > 1 and isinstance(b[0], ast.stmt):
+                # an explicit accumulate-by-append loop is the same statement as the list comprehension
+                i, nb = 0, []
+                while i < len(b):
+                    r = self._reroll(b[i], b[i + 1]) if i + 1 < len(b) else None
+                    if r is not None:
+                        nb.append(r)
+                        i += 2
+                    else:
+                        nb.append(b[i])
+                        i += 1
+                if len(nb) != len(b):
+                    setattr(node, fld, nb)
         for fld in ("body", "orelse", "finalbody"):
             b = getattr(node, fld, None)
             if isinstance(b, list) and len(b) > 1 and any(isinstance(x, ast.Pass) for x in b):
